@@ -195,7 +195,7 @@ func (s *sampler) emit(n *ast.Node, out []rune) []rune {
 // Directed draws a string the pattern is likely to match (a random walk through the AST),
 // mutated and embedded in noise. alpha is the pattern-derived alphabet.
 func Directed(t *rapid.T, root *ast.Node, re2 bool, alpha []rune, caseSafe bool, maxLen int) []rune {
-	s := &sampler{t: t, re2: re2, caps: map[int][]rune{}, alpha: alpha, budget: 60}
+	s := &sampler{t: t, re2: re2, caps: map[int][]rune{}, alpha: alpha, budget: 400}
 	core := s.emit(root, nil)
 	nz := noise
 	if caseSafe {
@@ -230,6 +230,10 @@ func Directed(t *rapid.T, root *ast.Node, re2 bool, alpha []rune, caseSafe bool,
 	out := append(append(append([]rune{}, pre...), core...), post...)
 	if len(out) > maxLen {
 		out = out[:maxLen]
+	}
+	// a final newline is where $ and \Z differ from \z
+	if rapid.IntRange(0, 4).Draw(t, "finalnl") == 0 {
+		out = append(out, '\n')
 	}
 	return out
 }
